@@ -382,6 +382,8 @@ class Engine:
             return self.models.method(self, fv.obj, fv.name, list(args), kwargs)
         if isinstance(fv, (staticmethod, classmethod)):
             return self.call(fv.__func__, args, kwargs)
+        if callable(fv) and getattr(fv, "_engine_callable", False):
+            return fv(self, *args, **kwargs)
         if isinstance(fv, types.FunctionType) and self.summaries and qualname(fv) in self.summaries and qualname(fv) not in self.stack:
             return self.summaries[qualname(fv)](self, fv, list(args), kwargs)
         m = self.models.lookup(fv)
